@@ -54,6 +54,7 @@ func c20Local(rcx *RunCtx) {
 	p := rcx.Plan
 	ntasks := 2 + p.Choose(7)
 	nlook := 10 + p.Choose(40)
+	localfs.VerifResetQIDs() // the table is process-wide: every run starts from a fresh process's
 	rcx.Label = "localfs (dev,ino)"
 	rcx.Sample = map[string]interface{}{"part": "localfs device/inode -> QID path", "tasks": ntasks, "lookups_per_task": nlook}
 	rcx.Res = simrt.Run(cfg, rcx.Sched, func() {
@@ -149,6 +150,7 @@ func c20Composed(rcx *RunCtx) {
 	nconn := 1 + p.Choose(3)
 	perConn := 1 + p.Choose(3)
 	nops := 4 + p.Choose(14)
+	localfs.VerifResetQIDs()
 	rcx.Label = "composefs under the server"
 	rcx.Sample = map[string]interface{}{"part": "concurrent QID lookups through composefs (staticfs + localfs mounts) under the real server", "connections": nconn, "threads_per_connection": perConn, "ops": nops}
 	tmp, err := os.MkdirTemp("", "p9verif-c20-")
